@@ -41,7 +41,7 @@ VALS = {
 }
 SCHEMAS_Q = [["int8"], ["text"], ["int64", "text"], ["text", "float64", "bool"], ["int8", "text", "int64", "float64"]]
 SCHEMAS_T = SCHEMAS_Q + [["bool", "bool"], ["float64", "text", "int8", "bool", "int64", "text"]]
-NAMES = ["n", "Z", "ä b", "x1", "c5", "a"]
+NAMES = ["n", "Z", "ä b", "x1", "c5", "a", "c10", "c11", "c2", "Zz", "n ", "col12"]
 
 
 def val(t, k):
@@ -328,6 +328,13 @@ def BOUNDS(tier):
 
 
 def cases(tier):
+    for sch in ([["int64", "text", "float64"], ["text"], ["int8", "bool", "int64", "float64", "text", "text", "int64", "float64", "bool", "int8", "text", "int64"]]):
+        for rows in ((1100,) if tier == "quick" else (300, 1100, 3000)):
+            yield {"k": "bigframe", "schema": sch, "rows": rows}
+    yield from small_cases(tier)
+
+
+def small_cases(tier):
     schemas = SCHEMAS_Q if tier == "quick" else SCHEMAS_T
     d = 2 if tier == "quick" else 3
     for si, sch in enumerate(schemas):
@@ -347,7 +354,121 @@ def cases(tier):
                     yield {"schema": sch, "variant": variant, "nrows": nrows, "depth": d, "tier": tier, "first": i}
 
 
+def run_bigframe(case):
+    """tables that are NOT small: more than 1024 rows, a dozen columns, appends of hundreds of rows (also refused ones
+    whose invalid row comes late), whole-column writes"""
+    r = R()
+    env.install_seams()
+    env.reset_execution()
+    path = env.fresh_path("c16b_")
+    f = nix.File.open(path, nix.FileMode.Overwrite)
+    try:
+        b = f.create_block("b", "t")
+        sch = case["schema"]
+        n0 = case["rows"]
+        m = Model(sch, n0)
+        df = create(b, "big", m, "col_dict")
+        steps = ["verify", "append-600", "bad-append-late", "write_column-all", "write_rows-spread", "bad-write-rows-late", "append_column", "reopen", "write_cell-last"]
+        k = 0
+        for st in steps:
+            k += 1
+            r.evals += 1
+            r.nontrivial += 1
+            n, c = m.nrows, len(m.names)
+            exc = None
+            try:
+                if st == "append-600":
+                    rows = [tuple(val(t, ri + 7 * ci + k) for ci, t in enumerate(m.types)) for ri in range(600)]
+                    df.append_rows(rows)
+                    for ci in range(c):
+                        m.cols[ci].extend(row[ci] for row in rows)
+                elif st == "bad-append-late":
+                    rows = [tuple(val(t, ri + ci) for ci, t in enumerate(m.types)) for ri in range(600)]
+                    rows[555] = rows[555] + (1,)              # one row too long, far behind any batch size
+                    try:
+                        df.append_rows(rows)
+                        r.outcomes.add("bad-accepted-without-effect?")
+                    except Exception as e:  # noqa
+                        r.outcomes.add("refused:" + type(e).__name__)
+                elif st == "write_column-all":
+                    for ci in (0, c - 1):
+                        col = [val(m.types[ci], ri + 3 * k) for ri in range(n)]
+                        df.write_column(col, name=m.names[ci])
+                        m.cols[ci] = list(col)
+                elif st == "write_rows-spread":
+                    idx = sorted({0, 1, 255, 256, 511, 512, 1023, 1024, n - 2, n - 1} & set(range(n)))
+                    rows = [tuple(val(t, ri + ci + 11 * k) for ci, t in enumerate(m.types)) for ri in idx]
+                    df.write_rows(rows, idx)
+                    for j, ri in enumerate(idx):
+                        for ci in range(c):
+                            m.cols[ci][ri] = rows[j][ci]
+                elif st == "bad-write-rows-late":
+                    idx = list(range(0, min(n, 700)))
+                    rows = [tuple(val(t, ri + ci + 13 * k) for ci, t in enumerate(m.types)) for ri in idx]
+                    rows[650 if len(rows) > 650 else len(rows) - 1] = (1,)
+                    try:
+                        df.write_rows(rows, idx)
+                        r.outcomes.add("bad-accepted-without-effect?")
+                    except Exception as e:  # noqa
+                        r.outcomes.add("refused:" + type(e).__name__)
+                elif st == "append_column":
+                    col = [val("int64", ri + k) for ri in range(n)]
+                    df.append_column(col, "zz_new", datatype=np.int64)
+                    m.names.append("zz_new")
+                    m.types.append("int64")
+                    m.cols.append(list(col))
+                    if m.units is not None:
+                        m.units = list(m.units) + [None]
+                elif st == "reopen":
+                    f.close()
+                    f = nix.File.open(path, nix.FileMode.ReadWrite)
+                    df = f.blocks["b"].data_frames["big"]
+                elif st == "write_cell-last":
+                    df.write_cell(val(m.types[0], 99), position=[n - 1, 0])
+                    m.cols[0][n - 1] = val(m.types[0], 99)
+            except Exception as e:  # noqa
+                exc = e
+            if exc is not None:
+                r.viol("C16|big:%s|raises-%s" % (st, type(exc).__name__), "%s on a %d-row table raises %s: %s" % (st, n, type(exc).__name__, str(exc)[:120]), {})
+                return r
+            r.transitions += 1
+            if not verify_big(r, df, m, "big:" + st):
+                return r
+        r.traces = 1
+        return r
+    finally:
+        env.safe_close(f)
+        env.rm(path)
+
+
+def verify_big(r, df, m, opk):
+    """whole-table comparison (the cell-by-cell readers of verify() are quadratic in the table size)"""
+    def bad(check, msg):
+        r.viol("C16|%s|in-session|%s" % (opk, check), "after %s: %s" % (opk, msg), {"rows": m.nrows})
+        return False
+    n, c = m.nrows, len(m.names)
+    if list(df.column_names) != m.names or tuple(df.df_shape) != (n, c) or len(df) != n:
+        return bad("counts", "names %r shape %r len %r, model %d x %d" % (list(df.column_names), df.df_shape, len(df), n, c))
+    whole = df[:]
+    for ci, t in enumerate(m.types):
+        colv = [row[ci] for row in whole]
+        badrows = [ri for ri in range(n) if not veq(colv[ri], m.cols[ci][ri], t)]
+        if badrows:
+            return bad("read-all", "column %d: %d cells differ, first at row %d: %r, model %r" % (ci, len(badrows), badrows[0], colv[badrows[0]], m.cols[ci][badrows[0]]))
+        col = df.read_columns(name=[m.names[ci]])
+        badrows = [ri for ri in range(n) if not veq(col[ri], m.cols[ci][ri], t)]
+        if len(col) != n or badrows:
+            return bad("read_columns", "column %d read by name: %d cells differ, first at row %r" % (ci, len(badrows), badrows[:1]))
+    for ri in sorted({0, 1, 255, 256, 1023, 1024, n - 1} & set(range(n))):
+        row = df.read_rows(ri)
+        if any(not veq(row[ci], m.cols[ci][ri], t) for ci, t in enumerate(m.types)):
+            return bad("read_rows", "read_rows(%d) = %r" % (ri, row))
+    return True
+
+
 def run_case(case):
+    if case.get("k") == "bigframe":
+        return run_bigframe(case)
     r = R()
     env.install_seams()
     env.reset_execution()
